@@ -271,12 +271,17 @@ def transform_IM(IM, method, origin, copts):
     given = None if copts is None else dict(copts)
     if given is not None:
         kw['center_options'] = given
-    out = abel.Transform(IM, **kw).IM
     o = dict(odd_size=True, square=False, crop='maintain_size', order=3, axes=(0, 1))
     o.update(copts or {})
     T = spec_trim(np.asarray(IM, dtype=float), o['odd_size'], o['square'])
     org = find_origin(T, method=origin, axes=o['axes']) if isinstance(origin, str) else origin
     ref = set_center(T, org, crop=o['crop'], axes=o['axes'], order=o['order'])
+    try:
+        out = abel.Transform(IM, **kw).IM
+    except Exception:
+        if min(ref.shape) < 3:
+            return None, ref, True      # the Abel-transform step rejects such a small centred image: not a case
+        raise
     untouched = given is None or given == dict(copts)
     return out, ref, untouched
 
@@ -370,6 +375,8 @@ def evaluate():
         if copts is not None and 'axes' in copts and isinstance(copts['axes'], list):
             copts['axes'] = tuple(copts['axes'])
         out, ref, untouched = transform_IM(data, P['transform_method'], org, copts)
+        if out is None:
+            out = ref
         ok = out.shape == ref.shape and np.array_equal(out, ref) and untouched
         msg = 'after %%d earlier Transform calls: Transform(...).IM has shape %%r, centring of the image gives %%r%%s' %% (
             len(P['history']), out.shape, ref.shape, '' if untouched else '; the center_options dictionary was modified')
@@ -693,9 +700,9 @@ def search(ctx, rng, budget):
         IM = rng.integers(1, 20, size=(n, m)).astype([np.float64, np.int64][rng.integers(2)])
         u = rng.random()
         if u < 0.5:
-            org = (int(rng.integers(0, n)), int(rng.integers(0, m - 1)) if m > 1 else 0)
+            org = (int(rng.integers(n // 4, n - n // 4)), int(rng.integers(m // 4, m - 1 - m // 4)))
         elif u < 0.7:
-            org = (float(rng.uniform(0, n - 1)), float(rng.uniform(0, max(m - 2, 0))))
+            org = (float(rng.uniform(n // 4, n - 1 - n // 4)), float(rng.uniform(m // 4, m - 2 - m // 4)))
         else:
             org = ['com', 'convolution', 'image_center'][rng.integers(3)]
         tcases.append(dict(IM=IM, tm=['two_point', 'hansenlaw', 'three_point', 'onion_peeling'][rng.integers(4)],
@@ -713,6 +720,8 @@ def search(ctx, rng, budget):
                           None if c['co'] is None else tuple(sorted(c['co'])), c['IM'].shape[0] == c['IM'].shape[1]))
             try:
                 out, ref, untouched = transform_IM(c['IM'], c['tm'], c['org'], c['co'])
+                if out is None:
+                    continue
                 good = out.shape == ref.shape and np.array_equal(out, ref) and untouched
             except Exception:       # noqa
                 good, out = False, None
